@@ -25,15 +25,13 @@ def requestCtxWrites : List (String × String × String) := [
   ("modules/caddyhttp/server.go:WithError", "ErrorCtxKey", "err"),
   ("modules/caddyhttp/server.go:PrepareRequest", "VarsCtxKey", "?{…}"),
   ("modules/caddyhttp/server.go:PrepareRequest", "routeGroupCtxKey", "make(?)"),
-  ("modules/caddyhttp/server.go:PrepareRequest", "OriginalRequestCtxKey", "originalRequest(r,&url2)"),
-  ("modules/caddyhttp/subroute.go:ServeHTTP", "routeGroupCtxKey", "make(?)")]
+  ("modules/caddyhttp/server.go:PrepareRequest", "OriginalRequestCtxKey", "originalRequest(r,&url2)")]
 
 /-- every mention of `routeGroupCtxKey` inside a function body: (file:function, the call it is an
     argument of — `WithValue` creates the map, `Value` reads it — or "other") -/
 def routeGroupCtxUses : List (String × String) := [
   ("modules/caddyhttp/routes.go:wrapRoute", "Value"),
-  ("modules/caddyhttp/server.go:PrepareRequest", "WithValue"),
-  ("modules/caddyhttp/subroute.go:ServeHTTP", "WithValue")]
+  ("modules/caddyhttp/server.go:PrepareRequest", "WithValue")]
 
 /-- the statements of the outer loop body of `MatcherSets.FromInterface` (one round per loaded matcher set) -/
 def fromInterfaceLoopBody : List String := [
